@@ -1,0 +1,13 @@
+//go:build verif
+
+package support
+
+// VerifGate, when set by a verification harness, is called by the worker goroutines of FBP at their
+// synchronisation points (site, worker number, tree id); it may block or record.
+var VerifGate func(site string, worker int, item int)
+
+func verifGate(site string, worker int, item int) {
+	if VerifGate != nil {
+		VerifGate(site, worker, item)
+	}
+}
